@@ -54,6 +54,8 @@ def reset_world():
 
 def gen_case(rng, tier):
     cfg = ic.gen_config(rng, exotic=True)
+    if "unit" not in cfg and rng.random() < 0.12:
+        cfg.update(defaults=True, kernel="iso-matrix", var=1.0, weight="persistence")
     nd = rng.randint(1, 8)
     dgms = [ic.gen_bd_diagram(rng, cfg) for _ in range(nd)]
     ops = []
@@ -81,6 +83,10 @@ def gen_case(rng, tier):
             op["seed"] = rng.randrange(10 ** 6)
             op["n_jobs"] = rng.choice((None, None, 2, 3))
         ops.append(op)
+    # another party of the process builds a default imager of its own and edits *its* parameter dicts in place
+    for _ in range(rng.randint(0, 2)):
+        ops.insert(rng.randrange(len(ops) + 1), {"op": "other-edit", "what": rng.choice(("kernel", "weight", "both")),
+                                                 "val": rng.choice((0.05, 2.0, 0.5))})
     # the user re-assigns the imager's weight / kernel (function and parameters) on the live object, as the
     # documentation's notebook does; every later call of the plan is held to the new configuration
     if rng.random() < 0.3:
@@ -229,12 +235,22 @@ def _run(case, sched, world, cfg, dg_json, im=None, ops=None, opi0=0):
         opi = opi0 + opi_local
         kind = op.get("op")
         nj = op.get("n_jobs")
+        if kind == "other-edit":
+            import sys as _sys
+            other_ = _sys.modules["persim.images"].PersistenceImager(pixel_size=0.5)
+            if op.get("what") in ("kernel", "both"):
+                other_.kernel_params["sigma"] = float(op.get("val", 0.5))
+            if op.get("what") in ("weight", "both"):
+                other_.weight_params["n"] = float(op.get("val", 2.0))
+            sched.note("op%d another party edited its own default imager" % opi)
+            continue
         if kind == "reassign":
             what, upd = op.get("what") or [], op.get("update") or {}
             if not set(what) <= {"kernel", "weight"} or not what or not set(upd) <= {"kernel", "weight", "var"}:
                 raise InvalidCase("reassign")
             cfgn = dict(cfg)
             cfgn.update(upd)
+            cfgn.pop("defaults", None)          # from here on the configuration is spelled out
             ic.check_config(cfgn)
             if "weight" in what:
                 w_, wp_ = ic.weight_of(cfgn)
